@@ -232,7 +232,110 @@ func classifyLoop(p *Prog, fn *ssa.Function, li *loopInfo, pf map[*ssa.Function]
 			}
 		}
 	}
+	// L5: the loop runs while a container is non-empty and every trip makes it shorter
+	for _, ex := range exits {
+		bo, ok := ex.cond.(*ssa.BinOp)
+		if !ok {
+			continue
+		}
+		lc, ok := bo.X.(*ssa.Call)
+		if !ok {
+			continue
+		}
+		if bi, ok := lc.Call.Value.(*ssa.Builtin); !ok || bi.Name() != "len" {
+			continue
+		}
+		k, isC := constInt(bo.Y)
+		if !isC || !((bo.Op == token.GTR && k >= 0) || (bo.Op == token.NEQ && k == 0) || (bo.Op == token.GEQ && k >= 1)) {
+			continue
+		}
+		ld, ok := lc.Call.Args[0].(*ssa.UnOp)
+		if !ok || ld.Op != token.MUL {
+			continue
+		}
+		loc, _ := locOf(ld.X)
+		if loc == "" {
+			continue
+		}
+		shrinks, other, dom := 0, 0, false
+		for b := range li.blocks {
+			for _, ins := range b.Instrs {
+				st, ok := ins.(*ssa.Store)
+				if !ok {
+					continue
+				}
+				if l2, _ := locOf(st.Addr); l2 != loc {
+					continue
+				}
+				good := false
+				if sl, ok := st.Val.(*ssa.Slice); ok && sl.Low == nil && sl.High != nil {
+					if sx, ok := sl.X.(*ssa.UnOp); ok && sx.Op == token.MUL {
+						if l3, _ := locOf(sx.X); l3 == loc {
+							base, off := linear(sl.High)
+							if hc, ok := base.(*ssa.Call); ok && off <= -1 {
+								if bi, ok := hc.Call.Value.(*ssa.Builtin); ok && bi.Name() == "len" {
+									if hx, ok := hc.Call.Args[0].(*ssa.UnOp); ok && hx.Op == token.MUL {
+										if l4, _ := locOf(hx.X); l4 == loc {
+											good = true
+										}
+									}
+								}
+							}
+						}
+					}
+				}
+				if !good {
+					other++
+					continue
+				}
+				shrinks++
+				d := true
+				for _, lt := range li.latch {
+					if !b.Dominates(lt) {
+						d = false
+					}
+				}
+				if d {
+					dom = true
+				}
+			}
+		}
+		if shrinks > 0 && other == 0 && dom && !loopCallsWrite(ld.X, li, fn, p) {
+			return "L5 shrinking", "the loop runs while " + loc + " is non-empty and every trip stores a strictly shorter prefix of it back (no other write to it in the loop)"
+		}
+	}
 	return "", "no monotone induction variable against an invariant bound, and no exit controlled by an input-consuming call executed on every trip"
+}
+
+// loopCallsWrite: some call of the loop may write the location addr designates (stores are judged by the caller).
+func loopCallsWrite(addr ssa.Value, li *loopInfo, fn *ssa.Function, p *Prog) bool {
+	loc, _ := locOf(addr)
+	eff := ComputeEffects(p)
+	for b := range li.blocks {
+		for _, ins := range b.Instrs {
+			x, ok := ins.(ssa.CallInstruction)
+			if !ok {
+				continue
+			}
+			if _, isB := x.Common().Value.(*ssa.Builtin); isB {
+				continue
+			}
+			in, ext := p.Callees(fn, x)
+			for _, callee := range in {
+				for _, ef := range eff.Sum[callee].Effects {
+					if ef.Loc == loc || strings.HasPrefix(ef.Loc, "unknown-callee") || strings.HasPrefix(ef.Loc, "callback") {
+						return true
+					}
+				}
+			}
+			if ext {
+				if ct, known := lookupContract(calleeName(x.Common())); !known || ct.ret == retUnknown {
+					return true
+				}
+			}
+		}
+	}
+	return false
 }
 
 func phiName(ph *ssa.Phi) string {
